@@ -23,7 +23,9 @@ pub const COINBASE: u8 = 0x41;
 pub const TIMESTAMP: u8 = 0x42;
 pub const NUMBER: u8 = 0x43;
 pub const PREVRANDAO: u8 = 0x44;
+pub const GASLIMIT: u8 = 0x45;
 pub const CHAINID: u8 = 0x46;
+pub const SELFBALANCE: u8 = 0x47;
 pub const BASEFEE: u8 = 0x48;
 pub const POP: u8 = 0x50;
 pub const MLOAD: u8 = 0x51;
@@ -227,6 +229,17 @@ pub fn height_runtime() -> Vec<u8> {
         &push(0),
         &[RETURN],
     ])
+}
+
+/// returns GASLIMIT, CHAINID, BASEFEE, COINBASE, GASPRICE, NUMBER, SELFBALANCE (and stores GASLIMIT in slot 1): block
+/// context that is not among the reads C17 excludes, so a simulation must show the transaction's values
+pub fn envread_runtime() -> Vec<u8> {
+    let mut c = cat(&[&[GASLIMIT, DUP1], &push(1), &[SSTORE], &push(0), &[MSTORE]]);
+    for (i, op) in [CHAINID, BASEFEE, COINBASE, GASPRICE, NUMBER, SELFBALANCE].iter().enumerate() {
+        c.extend(cat(&[&[*op], &push(32 * (i as u64 + 1)), &[MSTORE]]));
+    }
+    c.extend(cat(&[&push(32 * 7), &push(0), &[RETURN]]));
+    c
 }
 
 /// calls `target` (calldata[0..32]) with the rest of the calldata and bubbles the result
